@@ -128,7 +128,7 @@ Section Owner.
 
   Lemma owner_fold body f (l : list nat) st :
     owner_writes body f -> NoDup l -> (forall i, In i l -> cvalid K st i) ->
-    (forall i, cvalid K st i -> 
+    (forall i, cvalid K st i ->
       cget K (fold_left (fun s i => body i s) l st) i
       = if in_dec Nat.eq_dec i l then f i (cget K st i) else cget K st i)
     /\ (forall i, cvalid K st i -> cvalid K (fold_left (fun s i => body i s) l st) i).
@@ -212,10 +212,84 @@ End CellPair.
 (* a loop that keeps rewriting one cell = one rewrite with the folded value *)
 Lemma for_cell_local {S C} (K : Cells S C) (g : nat -> C -> C) i lo hi st : cvalid K st i ->
   for_ lo hi (fun j s => cset K s i (g j (cget K s i))) st
-  = cset K st i (fold_left (fun acc j => g j acc) (seq lo (hi - lo)) (cget K st i)).
+  = cset K st i (for_ lo hi g (cget K st i)).
 Proof.
   unfold for_. intros Hi. generalize (seq lo (hi - lo)) as l. intros l; revert st Hi.
   induction l as [|j l IH]; intros st Hi; simpl.
   - now rewrite cset_get_id.
   - rewrite IH by (apply cvalid_set; auto). rewrite cget_set_same by auto. apply cset_set_same.
 Qed.
+
+(* ---------- results of an owner-writes loop started from a constant array *)
+Section Results.
+  Context {A : Type} (d : A).
+  Lemma owner1_length body f l (st : list A) : owner_writes (cells1 d) body f ->
+    (forall i, In i l -> i < length st) ->
+    length (fold_left (fun s i => body i s) l st) = length st.
+  Proof.
+    intros H Hv. revert st Hv; induction l as [|a l IH]; intros st Hv; simpl; auto.
+    assert (E : body a st = aupd st a (f a (aget d st a))) by (apply (H a st); apply Hv; left; auto).
+    rewrite IH; rewrite E; [apply aupd_length|].
+    intros i Hi. simpl. rewrite aupd_length. apply Hv; right; auto.
+  Qed.
+
+  Theorem par_for_cells1_map sched n body f : is_sched sched -> owner_writes (cells1 d) body f ->
+    par_for sched 0 n body (repeat d n) = map (fun i => f i d) (seq 0 n).
+  Proof.
+    intros Hs Hb. rewrite (par_for_sched_indep (cells1 d) sched 0 n body f _ Hs Hb)
+      by (intros; simpl; rewrite repeat_length; lia).
+    unfold for_. rewrite Nat.sub_0_r.
+    assert (Hin : forall i, In i (seq 0 n) -> i < length (repeat d n)).
+    { intros k Hk. rewrite repeat_length. apply in_seq in Hk. lia. }
+    apply (list_ext d).
+    - rewrite (owner1_length body f) by auto. now rewrite repeat_length, map_length, seq_length.
+    - intros i Hi. rewrite (owner1_length body f), repeat_length in Hi by auto.
+      destruct (owner_fold (cells1 d) body f (seq 0 n) (repeat d n) Hb (seq_NoDup _ _)) as [H1 _].
+      { intros k Hk. simpl. rewrite repeat_length. apply in_seq in Hk. lia. }
+      specialize (H1 i). simpl in H1. rewrite H1 by (now rewrite repeat_length).
+      destruct (in_dec Nat.eq_dec i (seq 0 n)) as [_|Hn].
+      + rewrite aget_repeat, aget_map_seq by auto. reflexivity.
+      + exfalso; apply Hn, in_seq; lia.
+  Qed.
+End Results.
+
+Section Results2.
+  Context {A B : Type} (da : A) (db : B).
+  Lemma owner2_length body f l (st : list A * list B) : owner_writes (cells2 da db) body f ->
+    (forall i, In i l -> i < length (fst st) /\ i < length (snd st)) ->
+    length (fst (fold_left (fun s i => body i s) l st)) = length (fst st) /\
+    length (snd (fold_left (fun s i => body i s) l st)) = length (snd st).
+  Proof.
+    intros H Hv. revert st Hv; induction l as [|a l IH]; intros st Hv; simpl; auto.
+    assert (E : body a st = cset (cells2 da db) st a (f a (cget (cells2 da db) st a)))
+      by (apply (H a st); apply Hv; left; auto).
+    destruct (IH (body a st)) as [I1 I2].
+    { intros i Hi. rewrite E. simpl. rewrite !aupd_length. apply Hv; right; auto. }
+    rewrite I1, I2, E. simpl. now rewrite !aupd_length.
+  Qed.
+
+  Theorem par_for_cells2_map sched n body f : is_sched sched -> owner_writes (cells2 da db) body f ->
+    par_for sched 0 n body (repeat da n, repeat db n)
+    = (map (fun i => fst (f i (da, db))) (seq 0 n), map (fun i => snd (f i (da, db))) (seq 0 n)).
+  Proof.
+    intros Hs Hb. rewrite (par_for_sched_indep (cells2 da db) sched 0 n body f _ Hs Hb)
+      by (intros; simpl; rewrite !repeat_length; lia).
+    unfold for_. rewrite Nat.sub_0_r.
+    destruct (owner2_length body f (seq 0 n) (repeat da n, repeat db n) Hb) as [L1 L2].
+    { intros k Hk. simpl. rewrite !repeat_length. apply in_seq in Hk. lia. }
+    simpl in L1, L2.
+    rewrite repeat_length in L1, L2.
+    destruct (owner_fold (cells2 da db) body f (seq 0 n) (repeat da n, repeat db n) Hb (seq_NoDup _ _)) as [H1 _].
+    { intros k Hk. simpl. rewrite !repeat_length. apply in_seq in Hk. lia. }
+    set (r := fold_left (fun s i => body i s) (seq 0 n) (repeat da n, repeat db n)) in *.
+    assert (E : forall i, i < n -> (aget da (fst r) i, aget db (snd r) i) = f i (da, db)).
+    { intros i Hi. specialize (H1 i). simpl in H1. rewrite H1 by (rewrite !repeat_length; lia).
+      destruct (in_dec Nat.eq_dec i (seq 0 n)) as [_|Hn]; [now rewrite !aget_repeat|].
+      exfalso; apply Hn, in_seq; lia. }
+    rewrite (surjective_pairing r). f_equal.
+    - apply (list_ext da); [now rewrite L1, map_length, seq_length|].
+      intros i Hi. rewrite L1 in Hi. rewrite aget_map_seq by auto. now rewrite <- (E i Hi).
+    - apply (list_ext db); [now rewrite L2, map_length, seq_length|].
+      intros i Hi. rewrite L2 in Hi. rewrite aget_map_seq by auto. now rewrite <- (E i Hi).
+  Qed.
+End Results2.
